@@ -377,51 +377,6 @@ theorem positions_to_elements (l : List Nat) (P : Nat → Bool) (f : Nat → Int
   rw [h2, h1, ← List.map_map, ← List.filter_map, map_getD_range]
 
 
-/-- the role holders of a kept group, read off the selection, are those read off the whole
-    population, up to order -/
-theorem closed_filter_perm_role (d : Decl) (sel gsel : List Nat) (hcl : Closed d sel gsel) (g : Nat) (hg : g ∈ gsel)
-    (r : Nat) :
-    (sel.filter (fun i => decide (d.mem.getD i 0 = g ∧ d.roles.getD i 0 = r))).Perm
-      ((List.range d.nP).filter (fun i => decide (d.mem.getD i 0 = g ∧ d.roles.getD i 0 = r))) := by
-  have h := List.Perm.filter (fun i => decide (d.roles.getD i 0 = r)) (closed_filter_perm d sel gsel hcl g hg)
-  rw [List.filter_filter, List.filter_filter] at h
-  have e : (fun i => decide (d.roles.getD i 0 = r) && decide (d.mem.getD i 0 = g))
-      = (fun i => decide (d.mem.getD i 0 = g ∧ d.roles.getD i 0 = r)) := by
-    funext i; rw [Bool.and_comm, Bool.decide_and]
-  rw [e] at h
-  exact h
-
-/-- the role-filtered sum of a kept group, computed in the part alone, is the one computed in the
-    whole population -/
-theorem roleSum_restrict (d : Decl) (sel gsel : List Nat) (hm : d.mem.length = d.nP) (hcl : Closed d sel gsel)
-    (r : Nat) (x : Val) (j : Nat) (hj : j < gsel.length) :
-    roleSum (restrict d sel gsel) r (reindex sel x) j = roleSum d r x (gsel.getD j 0) := by
-  have hgj : gsel.getD j 0 ∈ gsel := by
-    simp [List.getD_eq_getElem?_getD, List.getElem?_eq_getElem hj]
-  unfold roleSum
-  have hlen : (restrict d sel gsel).mem.length = sel.length := by simp [restrict]
-  rw [hlen, hm]
-  have hpos := positions_to_elements sel
-    (fun i => decide (d.mem.getD i 0 = gsel.getD j 0 ∧ d.roles.getD i 0 = r)) (fun i => x.getD i 0)
-    (fun k => decide ((restrict d sel gsel).mem.getD k 0 = j ∧ (restrict d sel gsel).roles.getD k 0 = r))
-    (fun k => (reindex sel x).getD k 0) ?_ ?_
-  · rw [hpos]
-    have hp := List.Perm.map (fun i => x.getD i 0) (closed_filter_perm_role d sel gsel hcl _ hgj r)
-    apply List.Perm.foldl_eq' hp
-    intro a _ b _ z
-    omega
-  · intro k hk
-    have hmem : sel.getD k 0 ∈ sel := by rw [getD_of_lt sel k hk]; exact List.getElem_mem hk
-    have hig : d.mem.getD (sel.getD k 0) 0 ∈ gsel := (hcl.2.2.2.2 _ (hcl.1 _ hmem)).1 hmem
-    have e1 : (restrict d sel gsel).mem.getD k 0 = posIn gsel (d.mem.getD (sel.getD k 0) 0) := by
-      simp only [restrict]; exact getD_map_nat _ 0 sel k hk
-    have e2 : (restrict d sel gsel).roles.getD k 0 = d.roles.getD (sel.getD k 0) 0 := by
-      simp only [restrict]; exact getD_map_nat _ 0 sel k hk
-    rw [e1, e2, decide_eq_decide, posIn_eq_iff gsel hcl.2.2.2.1 _ j hig hj]
-  · intro k hk
-    unfold reindex
-    exact getD_map_nat _ 0 sel k hk
-
 /-- the values at the holders of a kept group, read in the part alone, are the values read in
     the whole population, up to order -/
 theorem holderVals_perm (d : Decl) (sel gsel : List Nat) (hm : d.mem.length = d.nP) (hcl : Closed d sel gsel)
@@ -433,17 +388,18 @@ theorem holderVals_perm (d : Decl) (sel gsel : List Nat) (hm : d.mem.length = d.
   have hlen : (restrict d sel gsel).mem.length = sel.length := by simp [restrict]
   rw [hlen, hm]
   have hpos := positions_to_elements sel
-    (fun i => decide (d.mem.getD i 0 = gsel.getD j 0 ∧ (r = 9 ∨ d.roles.getD i 0 = r))) (fun i => x.getD i 0)
-    (fun k => decide ((restrict d sel gsel).mem.getD k 0 = j ∧ (r = 9 ∨ (restrict d sel gsel).roles.getD k 0 = r)))
+    (fun i => decide (d.mem.getD i 0 = gsel.getD j 0 ∧ roleMatch r (d.roles.getD i 0) = true)) (fun i => x.getD i 0)
+    (fun k => decide ((restrict d sel gsel).mem.getD k 0 = j ∧ roleMatch r ((restrict d sel gsel).roles.getD k 0) = true))
     (fun k => (reindex sel x).getD k 0) ?_ ?_
   · rw [hpos]
     apply List.Perm.map
-    have h := List.Perm.filter (fun i => decide (r = 9 ∨ d.roles.getD i 0 = r))
+    have h := List.Perm.filter (fun i => roleMatch r (d.roles.getD i 0))
       (closed_filter_perm d sel gsel hcl _ hgj)
     rw [List.filter_filter, List.filter_filter] at h
-    have e : (fun i => decide (r = 9 ∨ d.roles.getD i 0 = r) && decide (d.mem.getD i 0 = gsel.getD j 0))
-        = (fun i => decide (d.mem.getD i 0 = gsel.getD j 0 ∧ (r = 9 ∨ d.roles.getD i 0 = r))) := by
-      funext i; rw [Bool.and_comm, Bool.decide_and]
+    have e : (fun i => roleMatch r (d.roles.getD i 0) && decide (d.mem.getD i 0 = gsel.getD j 0))
+        = (fun i => decide (d.mem.getD i 0 = gsel.getD j 0 ∧ roleMatch r (d.roles.getD i 0) = true)) := by
+      funext i
+      by_cases h1 : d.mem.getD i 0 = gsel.getD j 0 <;> cases hq : roleMatch r (d.roles.getD i 0) <;> simp [h1, hq]
     rw [e] at h
     exact h
   · intro k hk
@@ -457,6 +413,19 @@ theorem holderVals_perm (d : Decl) (sel gsel : List Nat) (hm : d.mem.length = d.
   · intro k hk
     unfold reindex
     exact getD_map_nat _ 0 sel k hk
+
+theorem roleSum_eq (d : Decl) (r : Nat) (x : Val) (g : Nat) :
+    roleSum d r x g = (holderVals d r x g).foldl (· + ·) 0 := rfl
+
+/-- the role-filtered sum of a kept group, computed in the part alone, is the one computed in the
+    whole population -/
+theorem roleSum_restrict (d : Decl) (sel gsel : List Nat) (hm : d.mem.length = d.nP) (hcl : Closed d sel gsel)
+    (r : Nat) (x : Val) (j : Nat) (hj : j < gsel.length) :
+    roleSum (restrict d sel gsel) r (reindex sel x) j = roleSum d r x (gsel.getD j 0) := by
+  rw [roleSum_eq, roleSum_eq]
+  apply List.Perm.foldl_eq' (holderVals_perm d sel gsel hm hcl r x j hj)
+  intro a _ b _ z
+  omega
 
 /-! ## the reductions do not depend on the order of their operands -/
 
@@ -548,11 +517,11 @@ theorem listAll_perm {l l' : List Int} (hp : l.Perm l') : listAll l = listAll l'
 
 /-- a group with exactly one holder of role `r`: the role-filtered sum is that holder's value -/
 theorem roleSum_unique (d : Decl) (r : Nat) (x : Val) (g i : Nat) (hi : i < d.mem.length)
-    (hh : d.mem.getD i 0 = g ∧ d.roles.getD i 0 = r)
-    (hu : ∀ k, k < d.mem.length → d.mem.getD k 0 = g ∧ d.roles.getD k 0 = r → k = i) :
+    (hh : d.mem.getD i 0 = g ∧ roleMatch r (d.roles.getD i 0) = true)
+    (hu : ∀ k, k < d.mem.length → d.mem.getD k 0 = g ∧ roleMatch r (d.roles.getD k 0) = true → k = i) :
     roleSum d r x g = x.getD i 0 := by
   unfold roleSum
-  have : (List.range d.mem.length).filter (fun k => decide (d.mem.getD k 0 = g ∧ d.roles.getD k 0 = r)) = [i] := by
+  have : (List.range d.mem.length).filter (fun k => decide (d.mem.getD k 0 = g ∧ roleMatch r (d.roles.getD k 0) = true)) = [i] := by
     rw [← List.perm_singleton]
     rw [List.perm_ext_iff_of_nodup (List.nodup_range.sublist List.filter_sublist) (by simp)]
     intro k
@@ -565,10 +534,10 @@ theorem roleSum_unique (d : Decl) (r : Nat) (x : Val) (g i : Nat) (hi : i < d.me
 
 /-- a group without holder of role `r`: 0 (the default of `value_from_person`) -/
 theorem roleSum_none (d : Decl) (r : Nat) (x : Val) (g : Nat)
-    (hn : ∀ k, k < d.mem.length → ¬(d.mem.getD k 0 = g ∧ d.roles.getD k 0 = r)) :
+    (hn : ∀ k, k < d.mem.length → ¬(d.mem.getD k 0 = g ∧ roleMatch r (d.roles.getD k 0) = true)) :
     roleSum d r x g = 0 := by
   unfold roleSum
-  have : (List.range d.mem.length).filter (fun k => decide (d.mem.getD k 0 = g ∧ d.roles.getD k 0 = r)) = [] := by
+  have : (List.range d.mem.length).filter (fun k => decide (d.mem.getD k 0 = g ∧ roleMatch r (d.roles.getD k 0) = true)) = [] := by
     rw [List.filter_eq_nil_iff]
     intro k hk
     simp only [decide_eq_true_eq]
@@ -657,16 +626,17 @@ theorem not_roleOp {o : Nat} (hr : isRoleOp o = false) :
   have : ¬(10 ≤ o ∧ o < 80) := by simpa [isRoleOp] using hr
   omega
 
-theorem f1_shape (o : Nat) (h1 : o ≠ 1) (h2 : o ≠ 2) (hr : isRoleOp o = false) :
+theorem f1_shape (o : Nat) (h1 : o ≠ 1) (h2 : o ≠ 2) (hr : isRoleOp o = false) (hp : isProjOp o = false) :
     ∃ g : Int → Int, ∀ (d : Decl) (x : Val), f1 d o x = x.map g := by
   obtain ⟨r1, r2, r3, r4, r5, r6, r7⟩ := not_roleOp hr
+  have r8 : ¬(80 ≤ o ∧ o < 90) := by simpa [isProjOp] using hp
   by_cases h0 : o = 0
   · exact ⟨fun a => -a, fun d x => by simp [f1, h0]⟩
   by_cases h3 : o = 3
   · exact ⟨fun a => if a ≠ 0 then 1 else 0, fun d x => by simp [f1, h3]⟩
   by_cases h100 : 100 ≤ o
-  · exact ⟨fun a => a * ((o : Int) - 150), fun d x => by simp only [f1, h0, h1, h2, h3, r1, r2, r3, r4, r5, r6, r7, h100, if_true, if_false]⟩
-  exact ⟨id, fun d x => by simp only [f1, h0, h1, h2, h3, r1, r2, r3, r4, r5, r6, r7, h100, if_false, List.map_id]⟩
+  · exact ⟨fun a => a * ((o : Int) - 150), fun d x => by simp only [f1, h0, h1, h2, h3, r1, r2, r3, r4, r5, r6, r7, r8, h100, if_true, if_false]⟩
+  exact ⟨id, fun d x => by simp only [f1, h0, h1, h2, h3, r1, r2, r3, r4, r5, r6, r7, r8, h100, if_false, List.map_id]⟩
 
 theorem castTo_shape (t : VType) : ∃ g : Int → Int, ∀ x : Val, castTo t x = x.map g := by
   cases t
@@ -698,9 +668,9 @@ theorem f2_sim {d : Decl} {sel gsel : List Nat} (hcl : Closed d sel gsel) (o : N
     · rw [hg x y, hg]; exact ⟨hx, rfl⟩
 
 theorem f1_sim_pointwise {d : Decl} {sel gsel : List Nat} (hcl : Closed d sel gsel) (o : Nat) (h1 : o ≠ 1) (h2 : o ≠ 2)
-    (hr : isRoleOp o = false) (s : Option Nat) (x : Val) (hx : ID d s x) :
+    (hr : isRoleOp o = false) (hp : isProjOp o = false) (s : Option Nat) (x : Val) (hx : ID d s x) :
     ID d s (f1 d o x) ∧ f1 (restrict d sel gsel) o (TD sel gsel s x) = TD sel gsel s (f1 d o x) := by
-  obtain ⟨g, hg⟩ := f1_shape o h1 h2 hr
+  obtain ⟨g, hg⟩ := f1_shape o h1 h2 hr hp
   rw [hg d, hg (restrict d sel gsel)]
   exact map_sim hcl g s x hx
 
@@ -817,6 +787,57 @@ theorem f1_sim_proj {d : Decl} {sel gsel : List Nat} (hm : d.mem.length = d.nP) 
   refine ⟨by simp [hm], ?_⟩
   exact project_restrict d sel gsel hm hcl x
 
+theorem getD_map_range_lt (F : Nat → Int) (n i : Nat) (h : i < n) : ((List.range n).map F).getD i 0 = F i := by
+  simp [List.getD_eq_getElem?_getD, List.getElem?_map, List.getElem?_range h]
+
+theorem f1_rproj (d : Decl) (o : Nat) (hp : isProjOp o = true) (x : Val) :
+    f1 d o x = (List.range d.mem.length).map (fun i =>
+      if roleMatch (o - 80) (d.roles.getD i 0) = true then x.getD (d.mem.getD i 0) 0 else 0) := by
+  have hb : 80 ≤ o ∧ o < 90 := by simpa [isProjOp] using hp
+  have h0 : o ≠ 0 := by omega
+  have h1 : o ≠ 1 := by omega
+  have h2 : o ≠ 2 := by omega
+  have h3 : o ≠ 3 := by omega
+  have r1 : ¬(10 ≤ o ∧ o < 20) := by omega
+  have r2 : ¬(20 ≤ o ∧ o < 30) := by omega
+  have r3 : ¬(30 ≤ o ∧ o < 40) := by omega
+  have r4 : ¬(40 ≤ o ∧ o < 50) := by omega
+  have r5 : ¬(50 ≤ o ∧ o < 60) := by omega
+  have r6 : ¬(60 ≤ o ∧ o < 70) := by omega
+  have r7 : ¬(70 ≤ o ∧ o < 80) := by omega
+  unfold f1
+  simp only [h0, h1, h2, h3, r1, r2, r3, r4, r5, r6, r7, if_false, if_pos hb]
+
+/-- the projection with a role filter commutes with a closed selection -/
+theorem f1_sim_rproj {d : Decl} {sel gsel : List Nat} (hm : d.mem.length = d.nP) (hcl : Closed d sel gsel)
+    (o : Nat) (hp : isProjOp o = true) (e1 : Nat) (he1 : e1 ≠ 0) (x : Val) (hx : ID d (some e1) x) :
+    ID d (some 0) (f1 d o x) ∧
+    f1 (restrict d sel gsel) o (TD sel gsel (some e1) x) = TD sel gsel (some 0) (f1 d o x) := by
+  simp only [ID, TD, idxFor, Decl.size, if_neg he1, if_true] at hx ⊢
+  rw [f1_rproj d o hp, f1_rproj (restrict d sel gsel) o hp]
+  refine ⟨by simp [hm], ?_⟩
+  have hlen : (restrict d sel gsel).mem.length = sel.length := by simp [restrict]
+  rw [hlen]
+  apply List.ext_getElem
+  · simp [reindex]
+  · intro k h1 h2
+    have hk : k < sel.length := by simpa using h1
+    have hmem : sel.getD k 0 ∈ sel := by rw [getD_of_lt sel k hk]; exact List.getElem_mem hk
+    have hip : sel.getD k 0 < d.nP := hcl.1 _ hmem
+    have hig : d.mem.getD (sel.getD k 0) 0 ∈ gsel := (hcl.2.2.2.2 _ hip).1 hmem
+    have e1' : (restrict d sel gsel).mem.getD k 0 = posIn gsel (d.mem.getD (sel.getD k 0) 0) := by
+      simp only [restrict]; exact getD_map_nat _ 0 sel k hk
+    have e2 : (restrict d sel gsel).roles.getD k 0 = d.roles.getD (sel.getD k 0) 0 := by
+      simp only [restrict]; exact getD_map_nat _ 0 sel k hk
+    have hsk : sel[k] = sel.getD k 0 := (getD_of_lt sel k hk).symm
+    simp only [reindex, List.getElem_map, List.getElem_range, e1', e2]
+    rw [hsk]
+    have hr := reindex_getD_posIn gsel x _ hig
+    unfold reindex at hr
+    rw [hr]
+    have hl : sel.getD k 0 < d.mem.length := by omega
+    rw [getD_map_range_lt _ _ _ hl]
+
 section
 variable {d : Decl} {sel gsel : List Nat} {armed : List Nat}
 
@@ -917,14 +938,22 @@ theorem elabExpr_rel (hm : d.mem.length = d.nP) (hcl : Closed d sel gsel) (p : P
         cases h : isRoleOp o
         · rfl
         · exact absurd (Or.inr h) hS
-      by_cases h2 : o = 2
-      · subst h2
-        simp only [if_true, Bool.and_eq_true, beq_iff_eq] at hwt ⊢
+      by_cases hP : o = 2 ∨ isProjOp o = true
+      · rw [if_pos hP] at hwt ⊢
+        simp only [Bool.and_eq_true, beq_iff_eq] at hwt
         obtain ⟨he, hwa⟩ := hwt
         subst he
-        exact .op1 _ (some 1) 2 _ _ (ih 1 hwa) (fun x hx => f1_sim_proj hm hcl 1 (by decide) x hx)
-      · simp only [if_neg h2] at hwt ⊢
-        exact .op1 _ (some ent) o _ _ (ih ent hwt) (fun x hx => f1_sim_pointwise hcl o h1 h2 hr _ x hx)
+        rcases hP with h2 | hp
+        · subst h2
+          exact .op1 _ (some 1) 2 _ _ (ih 1 hwa) (fun x hx => f1_sim_proj hm hcl 1 (by decide) x hx)
+        · exact .op1 _ (some 1) o _ _ (ih 1 hwa) (fun x hx => f1_sim_rproj hm hcl o hp 1 (by decide) x hx)
+      · rw [if_neg hP] at hwt ⊢
+        have h2 : o ≠ 2 := fun h => hP (Or.inl h)
+        have hp : isProjOp o = false := by
+          cases h : isProjOp o
+          · rfl
+          · exact absurd (Or.inr h) hP
+        exact .op1 _ (some ent) o _ _ (ih ent hwt) (fun x hx => f1_sim_pointwise hcl o h1 h2 hr hp _ x hx)
   | op2 o a b iha ihb =>
     intro ent hwt
     simp only [WT, Bool.and_eq_true] at hwt
